@@ -1,22 +1,32 @@
 """C02 — belief fusion is closed over well-formed opinions and never panics."""
 from .. import gen as G
+from .C07 import close_pair_lines
 from .common import TRUSTED, ASSUMPTIONS, default_nontrivial, LEVEL_NOTE, TECHNIQUE
 
 LEVEL = "proof"
-THEOREMS = ['C02_total', 'C02_simplex_wf', 'C02_simplex_wf_ecm', 'C02_base_rate_between', 'C02_base_rate_shared', 'C02_base_rate_sum', 'C02_base_rate_sum_bound', 'C02_wf', 'C02_fuse_os', 'C02_fuse_ss']
+THEOREMS = ['C02_total', 'C02_simplex_wf', 'C02_simplex_wf_ecm', 'C02_base_rate_between', 'C02_base_rate_between_unconditional', 'C02_base_rate_shared', 'C02_base_rate_sum', 'C02_base_rate_sum_bound', 'C02_wf', 'C02_wf_ecm', 'C02_fuse_os', 'C02_fuse_ss']
 EXTRA_MODULES = [("SLV.Props.Guards", "C02_")]
 RULE = ("fuse / fuse_os / fuse_ss for the 4 operators: guard lattice (vacuous, dogmatic, tolerance-edge vacuous u=1-k*eps/2, "
         "tolerance-edge dogmatic, interior; base rates different / equal / within a few ulps / one shared object), dyadic grids "
         "(exhaustive den 4 for n=2,3 in thorough; random up to 1/64), uncertainty sweeps 1e-300..1e-3 and 1-1e-3..1-2^-52, "
-        "arbitrary floats; n=1..4; families A/M/D/N, styles o/r/asg; f32+f64. The same guard lattice and dyadic operands over "
+        "arbitrary floats; base rates closer than ulps_eq! resolves (a small entry, 2^-8..2^-20 in f32 / ..2^-45 in f64, differing by "
+        "eps/4..eps absolutely = up to 6 % of the entry, or an ordinary entry differing by 1..4 ulps; ECm mostly on operands where that "
+        "state decides the maximal uncertainty); n=1..4; families A/M/D/N, styles o/r/asg; f32+f64. The same guard lattice and dyadic operands over "
         "2-D / 3-D domains: families M2/M3 (MArr2/MArr3), D2/D3 and N2/N3 (MArrD2/MArrD3, usize / newtype indices), shapes 1x2, 2x1, "
         "2x2, 1x3, 3x1, 2x3, 3x2, 1x2x2, 2x2x1, 2x1x2, 2x2x2, 1x2x3, 1x3x2, 2x1x3, 3x1x2, 2x2x3, styles o/r/asg/shared base rate; "
         "operands built with the containers' `new`, results read cell by cell through the index operator and compared (==) with an "
-        "independently built container. non-trivial = value returned, not both operands vacuous")
+        "independently built container. ECm with the variant token acc (the harness also asks the crate's own checked constructors): "
+        "operands whose base rates sum to exactly 1+k*eps, k=-2..4 (the band check_base_rate accepts; exact dyadic simplexes incl. "
+        "vacuous; one shared base-rate object / the same object twice / equal values / different base rates; n=1..4 and the 2-D / 3-D "
+        "families up to 8 cells) and non-dyadic normalised 4-cell shared base rates: whenever Opinion::try_new accepts both operands, "
+        "Simplex::try_new must accept the fused simplex, and Opinion::try_new the fused opinion when the operands' base-rate values "
+        "are equal (clause C02.ecm_result_accepted_by_constructor; with different base rates the un-normalised fused base rate may "
+        "leave the band by rounding, e.g. sums 1+3eps and 1-2eps give 1-2.5eps: reported by the correspondence check as ill-conditioned, "
+        "not required). non-trivial = value returned, not both operands vacuous")
 EXHAUSTIVE = {}
 LEVEL_TEXT = ("Theorems over the exact model for every n and rational well-formed operands: fusion is total, the fused simplex is "
-              "well-formed, every fused base-rate entry lies between the operands' entries and the base rate sums to 1 (up to the "
-              "per-entry ulps shortcut). Tied to FuseOp::fuse / fuse_assign by the correspondence check over the guard lattice; "
+              "well-formed, every fused base-rate entry lies between the operands' entries and the base rate sums to 1 (no hypothesis "
+              "on the base rates since the per-entry shortcut is taken at exactly equal entries only, repair c8a7116). Tied to FuseOp::fuse / fuse_assign by the correspondence check over the guard lattice; "
               "well-formedness and betweenness are evaluated on the implementation's outputs (catch_unwind observes panics).")
 
 
@@ -111,12 +121,20 @@ def cases(rng, tier):
                 w1, w2 = subn(), subn()
                 opn = rng.randint(0, 3)
             out.append(G.line("fuse", fmt, rng.choice(G.FAMS_1D) + rng.choice([".o", ".r", ".o.asg"]), [n, opn, 0], list(w1) + list(w2)))
+        # base rates closer than `ulps_eq!` resolves: a small entry (outside the (0, eps] band) differing by at most eps absolutely, i.e. by
+        # per cents of the entry, or an ordinary entry differing by 1..4 ulps (the per-entry shortcut of compute_base_rate before
+        # repairs c0b2ed5 / c8a7116 fired on these); ECm mostly on operands where that state decides the maximal uncertainty
+        out += close_pair_lines(rng, fmt, N // 6)
         for _ in range(N // 10):
             n = rng.choice([1, 2, 3])
             b1, u1, _ = G.guard_operand(rng, fmt, n)
             b2, u2, _ = G.guard_operand(rng, fmt, n)
             out.append(G.line("fuse_ss", fmt, rng.choice(G.FAMS_1D) + rng.choice([".o", ".o.asg"]),
                               [n, rng.randint(0, 3)], b1 + [u1] + b2 + [u2]))
+    # ECm under base rates whose float sum is 1 + k*eps (accepted by the constructors); variant token `acc`: the crate's own
+    # constructors judge the operands and the fused opinion (repair f029db5: the maximised simplex is renormalised)
+    for fmt in ("f64", "f32"):
+        out += G.band_ecm_cases(rng, fmt, (1500 if tier == "quick" else 40000) // 6)
     return out
 
 
